@@ -29,6 +29,7 @@ type Cross struct {
 	SameIDs   bool  // all clients use the same message IDs (q-th request has ID q): only the token tells replies apart
 	UDPSize   int   // server UDP buffer size (pool granularity), 0 = default 512
 	Pad       int   // extra TXT padding in the request so that it fills most of the receive buffer
+	Tsig      bool  // server has a TSIG secret, every request and reply is signed; TsigStatus must be nil for every request
 	Salt      uint32
 }
 
@@ -41,6 +42,7 @@ func genCross(transports []string) func(t *rapid.T) Cross {
 			SameIDs:   rapid.Bool().Draw(t, "sameIDs"),
 			UDPSize:   rapid.SampledFrom([]int{0, 0, 512, 1232, 4096}).Draw(t, "udpSize"),
 			Pad:       rapid.SampledFrom([]int{0, 0, 50, 200, 300}).Draw(t, "pad"),
+			Tsig:      rapid.IntRange(0, 9).Draw(t, "tsig") < 4,
 			Salt:      rapid.Uint32().Draw(t, "salt"),
 		}
 		if !pbt.Thorough() && c.Clients*c.Reqs > 192 {
@@ -102,16 +104,28 @@ func (s *crossState) request(cl, q int) *dns.Msg {
 		m.Id = uint16(cl*251 + q*7 + int(c.Salt&0xff))
 	}
 	txt := []string{tok}
-	if c.Pad > 0 {
-		txt = append(txt, strings.Repeat("p", min(c.Pad, 255)))
+	pad := min(c.Pad, 255)
+	if c.Tsig {
+		pad = min(pad, 120) // leave room for the TSIG record inside the 512-octet receive buffer
+	}
+	if pad > 0 {
+		txt = append(txt, strings.Repeat("p", pad))
 	}
 	m.Extra = append(m.Extra, &dns.TXT{Hdr: dns.RR_Header{Name: "tok.", Rrtype: dns.TypeTXT, Class: dns.ClassINET}, Txt: txt})
 	o := &dns.OPT{Hdr: dns.RR_Header{Name: ".", Rrtype: dns.TypeOPT}}
 	o.SetUDPSize(1232)
 	o.Option = append(o.Option, &dns.EDNS0_LOCAL{Code: tokOpt, Data: []byte(tok)})
 	m.Extra = append(m.Extra, o)
+	if c.Tsig {
+		m.SetTsig(tsigKeyName, dns.HmacSHA256, 300, time.Now().Unix())
+	}
 	return m
 }
+
+const (
+	tsigKeyName = "xtalk."
+	tsigSecret  = "c2VjcmV0LWZvci1jcm9zcy10YWxrLXJvdW5kcw=="
+)
 
 type crossState struct {
 	nonce  string
@@ -119,6 +133,7 @@ type crossState struct {
 	mu     sync.Mutex
 	seen   map[string]int
 	bad    []string
+	tsigOK atomic.Int32
 	alien  atomic.Int32
 	calls  atomic.Int32
 	active atomic.Int32
@@ -152,6 +167,19 @@ func (s *crossState) handler(w dns.ResponseWriter, req *dns.Msg) {
 		s.fail("handler saw a request nobody sent: qname token %q, TXT token %q, OPT token %q", qn, txt, opt)
 		return
 	}
+	if s.c.Tsig {
+		// every request was signed correctly by its client: the server must have verified exactly
+		// this request's octets
+		if req.IsTsig() == nil {
+			s.fail("signed request of token %q reached its handler without a TSIG record", qn)
+			return
+		}
+		if err := w.TsigStatus(); err != nil {
+			s.fail("correctly signed request of token %q: TsigStatus() = %v", qn, err)
+			return
+		}
+		s.tsigOK.Add(1)
+	}
 	before := req.String()
 	s.mu.Lock()
 	s.seen[qn]++
@@ -174,6 +202,9 @@ func (s *crossState) handler(w dns.ResponseWriter, req *dns.Msg) {
 	o.SetUDPSize(1232)
 	o.Option = append(o.Option, &dns.EDNS0_LOCAL{Code: tokOpt, Data: []byte("re:" + qn)})
 	m.Extra = []dns.RR{o}
+	if s.c.Tsig {
+		m.SetTsig(tsigKeyName, dns.HmacSHA256, 300, time.Now().Unix())
+	}
 	if err := w.WriteMsg(m); err != nil {
 		s.fail("handler of token %q could not write its reply: %v", qn, err)
 	}
@@ -183,7 +214,10 @@ func checkCross(c Cross) error {
 	key, _ := json.Marshal(c)
 	s := &crossState{c: c, seen: map[string]int{}, nonce: fmt.Sprintf("p%dr%d", os.Getpid(), crossSeq.Add(1))}
 	lost, err := s.run()
-	cl := []string{"transport=" + c.Transport, fmt.Sprintf("clients>=%d", bucket(c.Clients)), fmt.Sprintf("sameIDs=%v", c.SameIDs)}
+	cl := []string{"transport=" + c.Transport, fmt.Sprintf("clients>=%d", bucket(c.Clients)), fmt.Sprintf("sameIDs=%v", c.SameIDs), fmt.Sprintf("tsig=%v", c.Tsig)}
+	if c.Tsig && s.tsigOK.Load() > 0 {
+		cl = append(cl, "tsig-verified-requests")
+	}
 	inflight := s.maxAct.Load() >= 2
 	if inflight {
 		cl = append(cl, "inflight>=2")
@@ -216,6 +250,11 @@ func bucket(n int) int {
 func (s *crossState) run() (lost int, err error) {
 	c := s.c
 	srv := &dns.Server{Handler: dns.HandlerFunc(s.handler), ReadTimeout: time.Minute, IdleTimeout: func() time.Duration { return time.Minute }, UDPSize: c.UDPSize}
+	if c.Tsig {
+		srv.TsigSecret = map[string]string{tsigKeyName: tsigSecret}
+		// TXT + OPT + TSIG are three additional records; the default policy refuses more than two
+		srv.MsgAcceptFunc = func(dns.Header) dns.MsgAcceptAction { return dns.MsgAccept }
+	}
 	var lis *memnet.Listener
 	var pn *memnet.PacketNet
 	var pc *memnet.PacketConn
@@ -282,6 +321,9 @@ func (s *crossState) run() (lost int, err error) {
 			}
 			defer conn.Close()
 			co := &dns.Conn{Conn: conn, UDPSize: 1232}
+			if c.Tsig {
+				co.TsigSecret = map[string]string{tsigKeyName: tsigSecret} // replies are verified by ReadMsg
+			}
 			<-gate
 			for q := 1; q <= c.Reqs; q++ {
 				m := s.request(cl, q)
